@@ -10,7 +10,7 @@ from vf.props import common
 
 ID = "C10"
 LEVEL = "exploration"
-TECHNIQUE = "Hypothesis differential between the repository's own implementations: paired creators (CLI assembler vs class-based) and the three v2-capable hashers on the same generated payload"
+TECHNIQUE = "Hypothesis differential between the repository's own implementations: paired creators (CLI assembler vs class-based) and the three v2-capable hashers on the same generated payload ; interactive front end driven through its prompts; symlinked sibling directories; optional second act"
 RULE = ("Cases: generated tree x piece length x options (private/source/comment); pairs (TorrentAssembler v2, TorrentFileV2) and "
         "(TorrentAssembler hybrid, TorrentFileHybrid), and the interactive front end (InteractiveCreator with its prompts answered by "
         "the harness) against the CLI creator, must yield equal info dictionaries and piece layers (decoded values); per "
